@@ -14,6 +14,7 @@ which is discharged for the driver's instance in `solve_instance_contract`.
 -/
 import Model.NNLS
 import Proofs.NNLS
+import Proofs.NNLSLoop
 
 open Model
 
@@ -103,5 +104,98 @@ theorem a_kkt_point_unique (n : ℕ) (A : List (List α)) (b s s' : List α)
   exact a_minimiser_unique n A b s s' hsym hpd hb hs hs' hk hn' h1
 
 end a
+
+/-! ### (b) partial correctness of the active-set solver -/
+
+section b
+variable {α : Type} [Field α] [LinearOrder α] [IsStrictOrderedRing α]
+
+/-- (b) `fnnls_cholesky(ZTZ, ZTx, P_initial)` — cold start (`pInit = none`) or warm start from any
+    duplicate-free in-range `P_initial` (repaired prologue) — with linear solves meeting the solve
+    contract: a vector returned through the main exit of the loop has length `n` and satisfies the KKT
+    conditions with slack `tol` (`tol = 2.2204e-16·n` in the code): `d ≥ 0`, `(A d − b)_i = 0` where
+    `d_i > 0`, `(b − A d)_i ≤ tol` where `d_i = 0`.  No positive-definiteness is needed for this clause.
+    Termination is not claimed: the other outcomes (`no_update` break, iteration guard, failed solve)
+    are distinct values of `Impl.Outcome`. -/
+theorem b_fnnls_main_exit_kkt (solve : List (List α) → List α → Option (List α))
+    (hc : Spec.SolveContract solve) (n : ℕ) (A : List (List α)) (b : List α)
+    (hA : A.length = n) (hrow : ∀ r, r ∈ A → r.length = n) (hb : b.length = n)
+    (tol : α) (htol : 0 ≤ tol) (maxIter : ℕ) (pInit : Option (List ℕ))
+    (hp : ∀ idx, pInit = some idx → idx.Nodup ∧ ∀ i, i ∈ idx → i < n)
+    (d : List α) (lc lc2 : ℕ)
+    (h : Impl.fnnls solve A b tol maxIter pInit = .ok d .main lc lc2) :
+    d.length = n ∧ Spec.IsKKT A b d tol := by
+  have hcert := fnnls_main_certified solve hc n A b hA hrow tol htol maxIter hb pInit hp d lc lc2 h
+  exact ⟨hcert.1, Certified.isKKT n A b tol htol hb d hcert⟩
+
+/-- (b, structure of the result) every entry of a main-exit result is either exactly zero or exceeds the
+    tolerance; the gradient vanishes exactly on the latter. -/
+theorem b_fnnls_main_exit_entries (solve : List (List α) → List α → Option (List α))
+    (hc : Spec.SolveContract solve) (n : ℕ) (A : List (List α)) (b : List α)
+    (hA : A.length = n) (hrow : ∀ r, r ∈ A → r.length = n) (hb : b.length = n)
+    (tol : α) (htol : 0 ≤ tol) (maxIter : ℕ) (pInit : Option (List ℕ))
+    (hp : ∀ idx, pInit = some idx → idx.Nodup ∧ ∀ i, i ∈ idx → i < n)
+    (d : List α) (lc lc2 : ℕ)
+    (h : Impl.fnnls solve A b tol maxIter pInit = .ok d .main lc lc2) :
+    ∀ i, i < n → (vget d i = 0 ∧ vget b i - vget (matVec A d) i ≤ tol)
+      ∨ (tol < vget d i ∧ vget (matVec A d) i = vget b i) := by
+  obtain ⟨_, P, _, hon, hoff⟩ :=
+    fnnls_main_certified solve hc n A b hA hrow tol htol maxIter hb pInit hp d lc lc2 h
+  intro i hi
+  cases hpi : pget P i with
+  | true => exact Or.inr (hon i hi hpi)
+  | false => exact Or.inl (hoff i hi hpi)
+
+/-- (b ∘ a) hence, for symmetric positive semi-definite `A`, a main-exit result is optimal among all
+    `x ≥ 0` up to `tol·Σx`, with or without the warm start. -/
+theorem b_fnnls_main_exit_near_optimal (solve : List (List α) → List α → Option (List α))
+    (hc : Spec.SolveContract solve) (n : ℕ) (A : List (List α)) (b : List α)
+    (hsym : Spec.IsSymm n A) (hpsd : Spec.IsPSD n A) (hb : b.length = n)
+    (tol : α) (htol : 0 ≤ tol) (maxIter : ℕ) (pInit : Option (List ℕ))
+    (hp : ∀ idx, pInit = some idx → idx.Nodup ∧ ∀ i, i ∈ idx → i < n)
+    (d : List α) (lc lc2 : ℕ)
+    (h : Impl.fnnls solve A b tol maxIter pInit = .ok d .main lc lc2)
+    (x : List α) (hx : x.length = n) (hxn : Spec.Nonneg x) :
+    Spec.qform A b d ≤ Spec.qform A b x + tol * ∑ i ∈ Finset.range n, vget x i := by
+  obtain ⟨hd, hk⟩ := b_fnnls_main_exit_kkt solve hc n A b hsym.1 hsym.2.1 hb tol htol maxIter pInit hp
+    d lc lc2 h
+  exact a_kkt_tol_near_optimal n A b d x tol htol hsym hpsd hb hd hx hk hxn
+
+end b
+
+/-! ### (c) the unconstrained solver -/
+
+section c
+variable {α : Type} [Field α] [LinearOrder α] [IsStrictOrderedRing α]
+
+/-- (c) `reconstruction_positive_negative_from` returns `s` with `(F+H) s = D`, or an error outcome
+    (`singular`: the solve failed; `degenerate`: the all-values-equal check fired). -/
+theorem c_unconstrained_solves (solve : List (List α) → List α → Option (List α))
+    (hc : Spec.SolveContract solve) (atol rtol : α) (check : Bool) (ranges : List (ℕ × ℕ))
+    (A : List (List α)) (b s : List α)
+    (h : Impl.reconPosNeg solve atol rtol check ranges A b = .ok s) :
+    s.length = b.length ∧ matVec A s = b := by
+  unfold Impl.reconPosNeg at h
+  split at h
+  · simp at h
+  · rename_i x hx
+    split at h
+    · simp at h
+    · cases h
+      exact hc A b s hx
+
+/-- (c') the same through `AbstractInversion.reconstruction` with `use_positive_only_solver = False` -/
+theorem c_reconstruction_unconstrained (solve : List (List α) → List α → Option (List α))
+    (hc : Spec.SolveContract solve) (eps atol rtol : α) (maxIter : ℕ)
+    (usePInit forceEdge forceEdgeImage check : Bool) (edge zero : List ℕ) (ranges : List (ℕ × ℕ))
+    (A : List (List α)) (b s : List α)
+    (h : Impl.reconstruction solve eps atol rtol maxIter false usePInit forceEdge forceEdgeImage check
+      edge zero ranges A b = .ok s) :
+    s.length = b.length ∧ matVec A s = b := by
+  unfold Impl.reconstruction at h
+  simp only [Bool.false_eq_true, if_false] at h
+  exact c_unconstrained_solves solve hc atol rtol check ranges A b s h
+
+end c
 
 end C05
